@@ -183,6 +183,21 @@ func genData(kind, seed, n int) []byte {
 			b[i] = byte('a' + (i%p)%26 + (i/p)%3)
 		case 2:
 			b[i] = byte(seed)
+		case 4, 5:
+			// incompressible except for a short compressible tail: the block compressor, given a
+			// destination of only len(src) bytes by the frame layer, finds its first match when the
+			// destination is almost full (kind 4: zeros at the very end; kind 5: a repeat of the
+			// block's first bytes shortly before the end)
+			tail := 40 + seed%300
+			switch {
+			case kind == 4 && i >= n-tail:
+				b[i] = 0
+			case kind == 5 && i >= n-tail && i < n-tail+24 && n > 2*tail:
+				b[i] = b[i-(n-tail)]
+			default:
+				x = x*1664525 + 1013904223
+				b[i] = byte(x >> 24)
+			}
 		default:
 			if (i/1000)%2 == 0 {
 				x = x*1664525 + 1013904223
@@ -315,7 +330,7 @@ type wsCase struct {
 	once   bool
 	wf     bool
 	rdconc int
-	pre    int // prelude run on OTHER objects before the session (pool history): 0 none; 1 a sequential ReadFrom whose source fails; 2 a concurrent one; 3 a Reader abandoned mid-stream
+	pre    int // prelude run on OTHER objects before the session (pool history): 0 none; 1 a sequential ReadFrom whose source fails; 2 a concurrent one; 3 a Reader abandoned mid-stream; 4 a complete sequential ReadFrom of a whole number of blocks; 5 a complete concurrent ReadFrom ending inside a block
 }
 
 func (c *wsCase) fields() string {
@@ -358,6 +373,18 @@ func prelude(kind int) {
 			zw.Close()
 			zr := lz4.NewReader(bytes.NewReader(b.Bytes()))
 			zr.Read(make([]byte, 100))
+		case 4, 5:
+			// a COMPLETE, successful ReadFrom session on another Writer: a source that ends exactly on a
+			// block boundary (sequential), a source that ends inside a block (concurrent)
+			var b bytes.Buffer
+			zw := lz4.NewWriter(&b)
+			zw.Apply(lz4.BlockSizeOption(bs), lz4.ConcurrencyOption(1+(kind-4)))
+			n := 2 * int(bs)
+			if kind == 5 {
+				n += 1000
+			}
+			zw.ReadFrom(&source{data: genData(1, 7, n), r: newRng(1, "pre")})
+			zw.Close()
 		}
 	}
 }
